@@ -19,6 +19,9 @@ def run(tier, seed):
             continue
         if hasattr(m, "refusal_part"):
             m.refusal_part(ctx, tier)
+    from props import collection, adaptive
+    adaptive.collection_part(ctx, tier)
+    collection.run_part(ctx, tier)       # HistogramCollection: create / add / sum / normalize_* / copy / round trip / refusals
     ctx.assumptions = ["after a refused call every content, squared error and missed counter must equal the pool's unchanged record; "
                        "only the dtype may already be promoted, but reported and actual dtype must agree"]
     return ctx.finish("TLC interleaves refused calls (incompatible / non-histogram operand, negative factor, subtraction below "
